@@ -21,11 +21,111 @@ use gen::programs::{self, Family};
 use rng::{mix, Fnv, Rng};
 use simplicity::dag::{DagLike, InternalSharing};
 use simplicity::human_encoding::Forest;
-use simplicity::jet::{Core, CoreEnv};
+use simplicity::ffi::c_jets::frame_ffi::{c_readBit, c_writeBit, CFrameItem};
+use simplicity::jet::{Core, JetEnvironment};
 use simplicity::node::CoreConstructible;
 use simplicity::types;
 use simplicity::{BitIter, BitMachine, CommitNode, ConstructNode, RedeemNode, Value};
 use std::sync::Arc;
+
+/// A jet environment whose jets are Rust functions (Miri cannot call the C jets). Together with the
+/// `cfg(miri)` frame primitives in simplicity-sys this lets the Rust side of jet execution run under
+/// Miri: marshalling of the input frame, the call through `c_jet_ptr`, unmarshalling of the output.
+/// The functions need not equal the real jets bit for bit: the reference run uses the same
+/// environment.
+struct RustJets;
+
+fn rd(src: &mut CFrameItem, n: usize) -> u64 {
+    let mut v = 0u64;
+    for _ in 0..n {
+        v = (v << 1) | u64::from(unsafe { c_readBit(src) });
+    }
+    v
+}
+
+fn wr(dst: &mut CFrameItem, v: u64, n: usize) {
+    for i in (0..n).rev() {
+        unsafe { c_writeBit(dst, (v >> i) & 1 == 1) };
+    }
+}
+
+fn j_add32(dst: &mut CFrameItem, mut src: CFrameItem, _: &()) -> bool {
+    let a = rd(&mut src, 32);
+    let b = rd(&mut src, 32);
+    let s = a + b;
+    wr(dst, s >> 32, 1);
+    wr(dst, s & 0xffff_ffff, 32);
+    true
+}
+fn j_xor32(dst: &mut CFrameItem, mut src: CFrameItem, _: &()) -> bool {
+    let a = rd(&mut src, 32);
+    let b = rd(&mut src, 32);
+    wr(dst, a ^ b, 32);
+    true
+}
+fn j_complement8(dst: &mut CFrameItem, mut src: CFrameItem, _: &()) -> bool {
+    let a = rd(&mut src, 8);
+    wr(dst, !a & 0xff, 8);
+    true
+}
+fn j_eq32(dst: &mut CFrameItem, mut src: CFrameItem, _: &()) -> bool {
+    let a = rd(&mut src, 32);
+    let b = rd(&mut src, 32);
+    wr(dst, u64::from(a == b), 1);
+    true
+}
+fn j_unsupported(_: &mut CFrameItem, _: CFrameItem, _: &()) -> bool {
+    false
+}
+
+impl JetEnvironment for RustJets {
+    type Jet = Core;
+    type CJetEnvironment = ();
+    fn c_jet_env(&self) -> &() {
+        &()
+    }
+    fn c_jet_ptr(jet: &Core) -> fn(&mut CFrameItem, CFrameItem, &()) -> bool {
+        match jet {
+            Core::Add32 => j_add32,
+            Core::Xor32 => j_xor32,
+            Core::Complement8 => j_complement8,
+            Core::Eq32 => j_eq32,
+            _ => j_unsupported,
+        }
+    }
+}
+
+fn supported_jets() -> Vec<usize> {
+    let want = [Core::Add32, Core::Xor32, Core::Complement8, Core::Eq32];
+    Core::ALL.iter().enumerate().filter(|(_, j)| want.contains(j)).map(|(i, _)| i).collect()
+}
+
+/// Tracker that hashes the output bits of every terminal node (jets included), so that the digest
+/// of an execution covers every intermediate result, not only the program's final output.
+struct HashTracker(Fnv);
+
+impl simplicity::bit_machine::ExecTracker for HashTracker {
+    fn visit_node(&mut self, node: &RedeemNode, _input: simplicity::bit_machine::FrameIter, output: simplicity::bit_machine::NodeOutput) {
+        use simplicity::bit_machine::NodeOutput;
+        match output {
+            NodeOutput::Success(mut it) => {
+                self.0.u8(1);
+                let w = node.arrow().target.bit_width().min(4096);
+                for _ in 0..w {
+                    match it.next() {
+                        Some(b) => self.0.u8(u8::from(b)),
+                        None => {
+                            self.0.u8(9);
+                            break;
+                        }
+                    }
+                }
+            }
+            NodeOutput::JetFailed => self.0.u8(2),
+            NodeOutput::NonTerminal => self.0.u8(3),
+        }
+    }
+}
 
 #[derive(Clone, Debug)]
 enum Op {
@@ -116,19 +216,22 @@ fn run_op(op: &Op, prog: &[u8], wit: &[u8], mine: &mut Option<Arc<RedeemNode>>, 
         },
         Op::Exec => match mine {
             Some(p) => match BitMachine::for_program(p) {
-                Ok(mut mac) => match mac.exec(p, &CoreEnv::new()) {
-                    Ok(v) => {
-                        let bits: Vec<u8> = v.iter_compact().map(u8::from).collect();
-                        dig("exec-ok", &[&bits])
+                Ok(mut mac) => {
+                    let mut tr = HashTracker(Fnv::new());
+                    match mac.exec_with_tracker(p, &RustJets, &mut tr) {
+                        Ok(v) => {
+                            let bits: Vec<u8> = v.iter_compact().map(u8::from).collect();
+                            dig("exec-ok", &[&bits, &tr.0 .0.to_le_bytes()])
+                        }
+                        Err(_) => dig("exec-err", &[&tr.0 .0.to_le_bytes()]),
                     }
-                    Err(_) => 8,
-                },
+                }
                 Err(_) => 9,
             },
             None => 1,
         },
         Op::Prune => match mine {
-            Some(p) => match p.prune(&CoreEnv::new()) {
+            Some(p) => match p.prune(&RustJets) {
                 Ok(q) => redeem_digest(&q),
                 Err(_) => 10,
             },
@@ -408,8 +511,21 @@ fn gen_workload(verif_seed: u64, wl: u64) -> Workload {
             .collect();
         return Workload { prog: Vec::new(), wit: Vec::new(), plans };
     }
+    let jets = supported_jets();
+    if wl == 1 {
+        // jet storm: every thread executes (and prunes) the same small program with jets, so that
+        // the Rust side of jet execution runs concurrently on all threads
+        let (prog, wit) = loop {
+            let rec = programs::limited_jet_recipe(&mut r, 3, &jets);
+            if let Some(b) = programs::build(&rec) {
+                break b.redeem.to_vec_with_witness();
+            }
+        };
+        let plans: Vec<Vec<Op>> = (0..3).map(|t| if t == 2 { vec![Op::Exec, Op::Prune] } else { vec![Op::Exec, Op::Exec] }).collect();
+        return Workload { prog, wit, plans };
+    }
     let (prog, wit) = loop {
-        let rec = programs::jetfree_recipe(&mut r, 8);
+        let rec = if r.bool() { programs::limited_jet_recipe(&mut r, 6, &jets) } else { programs::jetfree_recipe(&mut r, 8) };
         if let Some(b) = programs::build(&rec) {
             break b.redeem.to_vec_with_witness();
         }
